@@ -378,6 +378,12 @@ class Prop(PropBase):
                     if abs(got - w[idx]) > F(1, 2**50) * max(1, abs(w[idx])):
                         bad.append(f"{lab}: element {idx} off by {float(abs(got - w[idx])):.3g}")
                         break
+            # dimensionless factors are numbers whatever unit they are written in: 50 % is a half, 1500 m/km... a pure number
+            for fq, fx in ((50 * u.percent, F(1, 2)), ((1000 * u.ms) / (2 * u.s), F(1, 2)), ((3 * u.km) / (2 * u.m), F(1500)),
+                           (2 * u.one, F(2)), (u.Quantity(4.0), F(4)), (u.Quantity(np.float32(0.25)), F(1, 4))):
+                is_phase(pa * fq, A * fx, f"phase * ({fq})", F(1, 2**48))
+                is_phase(fq * pa, A * fx, f"({fq}) * phase", F(1, 2**48))
+                is_phase(pa / fq, A / fx, f"phase / ({fq})", F(1, 2**48))
             # angles in other units are angles all the same: 90 deg is a quarter cycle, as an operand, a divisor or an argument
             for ang in (90 * u.deg, (np.pi / 2) * u.rad, 6 * u.hourangle):
                 dq = F(float(ang.to_value(u.cycle)))
